@@ -3,11 +3,11 @@ NEXT Next
 VIEW View
 CHECK_DEADLOCK FALSE
 CONSTANTS
-  Keys <- KeysMix
-  Alias <- AliasMix
-  IntVal <- IntValMix
+  Keys <- KeysExt
+  Alias <- AliasExt
+  IntVal <- IntValExt
   Travs <- AllTravs
-  LenEnabled = TRUE
-  MaxSteps = 6
+  LenEnabled = FALSE
+  MaxSteps = 2
   ViewHist = 0
   EmitAll = TRUE
